@@ -188,9 +188,9 @@ func (t *translator) intExpr(e ast.Expr) string {
 		case token.REM:
 			return "(Int.tmod " + a + " " + b + ")"
 		case token.SHL:
-			return "(" + a + " * 2 ^ (" + b + ").toNat)"
+			return "(" + a + " * 2 ^ ((" + b + " : Int)).toNat)"
 		case token.SHR:
-			return "(" + a + " >>> (" + b + ").toNat)"
+			return "(" + a + " >>> ((" + b + " : Int)).toNat)"
 		}
 	case *ast.CallExpr:
 		if s, ok := t.pow2Idiom(v); ok {
@@ -546,7 +546,7 @@ func collectConsts(pkgs []*pkgInfo) (map[string]string, []string) {
 							}
 						}
 						e := tr.intExpr(vs.Values[i])
-						if tr.fail != "" {
+						if tr.fail != "" || strings.Contains(e, "iota") {
 							continue
 						}
 						vals[n.Name] = "(" + e + ")"
